@@ -8,6 +8,6 @@ set -eu
 ID="$1"; W="/tmp/work-${ID,,}"
 rm -rf "$W/verif"; mkdir -p "$W"
 if [ ! -d "$W/repo" ]; then git -C /repo worktree add --detach "$W/repo" HEAD >/dev/null; fi
-rsync -a --exclude target --exclude .git --exclude out /verif/ "$W/verif/"
+rsync -a --exclude /fuzz/target --exclude /fuzz/corpus-work --exclude /.git --exclude /out --exclude incremental /verif/ "$W/verif/"
 sed -i "s#path = \"/repo\"#path = \"$W/repo\"#" "$W/verif/harness/Cargo.toml"
 echo "work area: $W   (run: cd $W/verif && ./check $ID)"
